@@ -257,6 +257,13 @@ type TimingOpts struct {
 	// consists of s_endpgm only and declares that many scalar / vector registers runs to completion on the same
 	// CU (state that a CU keeps across kernels - scratch buffers, pools, allocation cursors - is then not fresh).
 	WarmSGPRs, WarmVGPRs int
+	// MI300AKnobs: the compute-unit parameters of the mi300a timing platform instead of the builder's defaults
+	// (wavefront pool 8, vector-memory instruction pipeline 2 stages, transaction pipeline 4 stages x 8 wide,
+	// memory pipeline buffer 64, coalescing penalty 3 cycles for sparsely used read lines). Timing parameters may
+	// change simulated time only.
+	MI300AKnobs bool
+	// CoalescingPenalty > 0 alone: only that parameter on top of the defaults.
+	CoalescingPenalty int
 }
 
 type taskHook struct{ f func(ctx sim.HookCtx) }
@@ -287,6 +294,13 @@ func RunTiming(x *explore.Exec, k *Kernel, g Geometry, o TimingOpts) (res *Resul
 		WithInstMem(fakeP{n: imem}).WithScalarMem(fakeP{n: smem}).
 		WithVectorMemModules(&mem.SinglePortMapper{Port: vmem}).
 		WithRegisterScoreboard(o.Scoreboard)
+	if o.MI300AKnobs {
+		b = b.WithWfPoolSize(8).WithVecMemInstPipelineStages(2).WithVecMemTransPipelineStages(4).WithVecMemTransPipelineWidth(8).
+			WithMemPipelineBufferSize(64).WithMaxCoalescingPenalty(3)
+	}
+	if o.CoalescingPenalty > 0 {
+		b = b.WithMaxCoalescingPenalty(o.CoalescingPenalty)
+	}
 	c := b.Build("CU")
 	toACE, toI, toS, toV := c.ToACE, c.ToInstMem, c.ToScalarMem, c.ToVectorMem
 	w.NewWire("wire", toACE, toI, toS, toV, c.ToCP)
@@ -614,4 +628,124 @@ func SortedKeys(m map[[2]int][]uint64) [][2]int {
 	}
 	sort.Slice(ks, func(i, j int) bool { return ks[i][0] < ks[j][0] || ks[i][0] == ks[j][0] && ks[i][1] < ks[j][1] })
 	return ks
+}
+
+// EmuDispatchBody closes the real functional-emulation CU with an explorer-driven dispatcher. The work-groups of
+// the grid are mapped in batches: batch i+1 is sent when the CU has put the completion message of batch i on its
+// port (the emulation CU runs what it has at the next whole second of simulated time). The dispatcher may read a
+// completion message late: for every message the explorer chooses how many FURTHER completion messages the CU
+// must have sent before the dispatcher takes it (0 = at once).
+// Oracle (property C09, for any completion order and delay): every MapWGReq is acknowledged exactly once over all
+// WGCompletionMsg, judged on what a message holds when the dispatcher reads it.
+func EmuDispatchBody(k *Kernel, g Geometry, batchSizes []int) explore.Body {
+	return func(x *explore.Exec) *explore.Violation {
+		w := world.New(x, 1<<40)
+		w.MaxEvts = 200000
+		storage := mem.NewStorage(1 << 20)
+		storage.Write(0, InitialMemory(k, g))
+		pt := vm.NewPageTable(12)
+		for a := uint64(0); a < MemSize+0x1000; a += 0x1000 {
+			pt.Insert(vm.Page{PID: 1, VAddr: a, PAddr: a, PageSize: 0x1000, Valid: true})
+		}
+		c := emu.BuildComputeUnit("EmuCU", w.Engine, insts.NewDisassembler(), pt, 12, storage, nil)
+		w.NewWire("wire", c.ToDispatcher)
+		wgs := workGroups(k, g)
+		const ace = sim.RemotePort("Env.ACE")
+		var viol *explore.Violation
+		fail := func(sig, f string, a ...any) {
+			if viol == nil {
+				viol = explore.Viol("emu-cu/"+sig, f, a...)
+			}
+		}
+		ids := map[string]int{}
+		acks := make([]int, len(wgs))
+		var trace strings.Builder
+		f := &world.Feeder{W: w, Port: c.ToDispatcher, Tag: "ace"}
+		sent := 0 // completion messages the CU has put on its port
+		world.OnSend(c.ToDispatcher, func(m sim.Msg) {
+			if _, ok := m.(*protocol.WGCompletionMsg); ok {
+				sent++
+			}
+		})
+		next, batch, sentAtLastInject := 0, 0, -1
+		inject := func() {
+			for batch < len(batchSizes) && sent >= batch {
+				for j := 0; j < batchSizes[batch] && next < len(wgs); j++ {
+					wg := wgs[next]
+					rb := protocol.MapWGReqBuilder{}.WithSrc(ace).WithDst(c.ToDispatcher.AsRemote()).WithPID(1).WithWG(wg)
+					for _, wf := range wg.Wavefronts {
+						rb = rb.AddWf(protocol.WfDispatchLocation{Wavefront: wf})
+					}
+					req := rb.Build()
+					ids[req.ID] = next
+					f.Add(req, false)
+					next++
+				}
+				batch++
+				sentAtLastInject = sent
+			}
+		}
+		read := func(m sim.Msg) {
+			cm, ok := m.(*protocol.WGCompletionMsg)
+			if !ok {
+				fail("unexpected-message-to-dispatcher", "%T", m)
+				return
+			}
+			fmt.Fprintf(&trace, "read-after-%d-sent[", sent)
+			for _, id := range cm.RspTo {
+				i, ok := ids[id]
+				if !ok {
+					fail("completion-for-unknown-request", "%s", id)
+					continue
+				}
+				acks[i]++
+				fmt.Fprintf(&trace, "%d ", i)
+				if acks[i] > 1 {
+					fail("work-group-completion-reported-twice", "work-group %d acknowledged %d times (trace %s)", i, acks[i], trace.String())
+				}
+			}
+			trace.WriteString("];")
+		}
+		// messages travel to the dispatcher's incoming buffer at once (as over a connection) and are READ later
+		type held struct {
+			m   sim.Msg
+			rel int
+		}
+		var inbox []held
+		w.Step = func() bool {
+			inject()
+			for {
+				m := c.ToDispatcher.RetrieveOutgoing()
+				if m == nil {
+					break
+				}
+				k := 0
+				if x.CanDeviate() {
+					k = x.Choose(3, "read-completion-after-further-messages")
+				}
+				inbox = append(inbox, held{m, sent + k})
+			}
+			allIn := batch == len(batchSizes) && sent > sentAtLastInject
+			for len(inbox) > 0 && (sent >= inbox[0].rel || allIn) {
+				read(inbox[0].m)
+				inbox = inbox[1:]
+			}
+			inject()
+			return f.Step(4)
+		}
+		quiet := w.Run()
+		if viol != nil {
+			return viol
+		}
+		if !quiet {
+			return nil
+		}
+		for i, n := range acks {
+			if i < next && n == 0 {
+				return explore.Viol("emu-cu/work-group-completion-never-reported", "work-group %d was mapped and never acknowledged (trace %s)", i, trace.String())
+			}
+		}
+		x.Outcome(trace.String())
+		return nil
+	}
 }
